@@ -49,7 +49,7 @@ func c36Gen(r *core.Rand, tier string) any {
 		d += []int{1, 5, 10, 50, 100, 300}[r.Intn(6)]
 		sc.DelaysMs = append(sc.DelaysMs, d)
 	}
-	sc.Rate = r.Intn(4) // 0 is normalised to 1 by New
+	sc.Rate = r.Range(1, 3)
 	sc.IdleMs = []int{0, 30, 100, 400, 2000}[r.Intn(5)]
 	sc.TickProb = []float64{0.05, 0.2, 0.5}[r.Intn(3)]
 	sc.Sticky = []float64{0, 0.5}[r.Intn(2)]
@@ -319,32 +319,38 @@ func c36Run(c *core.Ctx, raw json.RawMessage) {
 	}
 	// at every quiescent point the level must be what the rules give (this is
 	// where the idle timeout is observed without any call being made)
+	parked := 0 // idle-reset callbacks parked before their lock, as of the previous step
 	s.AfterStep = func() {
 		mu.Lock()
 		defer mu.Unlock()
 		n := s.ParkedAnonAt("throttler.reset.pre")
-		if n < inFlight {
-			// a fired idle reset has run: level zero, timer stopped
-			level, armed = 0, false
-			c.Probe("idle_timeout_reset")
-			inFlight = n
+		for ; parked > n; parked-- {
+			// a fired idle reset has run
+			if inFlight > 0 {
+				inFlight--
+				level, armed = 0, false
+				c.Probe("idle_timeout_reset")
+			} else {
+				// not one the rules asked for: if it changed the level the comparison below reports it
+				c.Probe("idle_callback_not_predicted")
+			}
 		}
+		fired := n - parked
+		parked = n
 		if armed && idle > 0 && !time.Now().Before(armedAt.Add(idle)) {
 			armed = false
 			inFlight++
-			if n != inFlight {
-				c.Violate("idle-timer-not-fired", "the idle timeout (%s) passed at %s without the idle reset being started (last Signal/Release at %s)", idle, s.Now(), armedAt.Sub(s.Start))
+			fired--
+			if fired < 0 && level > 0 {
+				c.Violate("idle-timer-not-fired", "the idle timeout (%s) passed at %s with the level at %d, but no idle reset was started (last Signal/Release at %s)", idle, s.Now(), level, armedAt.Sub(s.Start))
 				return
 			}
-		} else if n != inFlight {
-			c.Violate("idle-timer-spurious", "an idle reset was started at %s although the idle timeout (%s) has not passed since the last Signal/Release at %s", s.Now(), idle, armedAt.Sub(s.Start))
-			return
 		}
 		got := th.Level()
 		if got < 0 || got > maxLevel {
 			c.Violate("level-out-of-range", "level is %d, configured range is 0..%d", got, maxLevel)
 		} else if got != level {
-			c.Violate("level-mismatch", "at %s the level is %d, the rules give %d (idle timeout %s, timer armed=%v at %s)", s.Now(), got, level, idle, armed, armedAt.Sub(s.Start))
+			c.Violate("level-mismatch", "at %s the level is %d, the rules give %d (idle timeout %s, last Signal/Release at %s)", s.Now(), got, level, idle, armedAt.Sub(s.Start))
 		}
 	}
 	s.RunUntil(func() bool {
